@@ -11,7 +11,9 @@
 EXTENDS Naturals, Sequences, FiniteSets, SequencesExt
 
 CONSTANTS Peers,          \* set of peer numbers
-          Racy            \* BOOLEAN: allow the enqueue-then-pop deviation
+          Racy,           \* BOOLEAN: allow the enqueue-then-pop deviation
+          Connect         \* BOOLEAN: peers are attached through Node.connect_peer, which sends our version message
+                          \*          to the peer before its receive thread starts (the handshake's first half)
 
 Kinds      == {"ping", "version", "verack", "inv", "addr", "unknown"}
 Registered == {"version", "verack", "ping"}
@@ -32,11 +34,12 @@ Reply(m) == IF m.k = "ping" THEN <<<<"pong", m.n>>>>
 TypeOK == /\ pc \in [Peers -> {"recv", "got", "enq", "handle", "rtest", "rpop", "done"}]
           /\ idx \in [Peers -> Nat]
 
+Hello == IF Connect THEN <<<<"version", 0>>>> ELSE <<>>
 InitWith(s) == /\ script = s
                /\ pc = [p \in Peers |-> "recv"]
                /\ idx = [p \in Peers |-> 0]
                /\ queue = <<>>
-               /\ sent = [p \in Peers |-> <<>>]
+               /\ sent = [p \in Peers |-> Hello]
                /\ vdata = [p \in Peers |-> 0]
 
 (* ---- receive: take the next message of p's stream, or finish at end of stream ---- *)
@@ -92,7 +95,7 @@ UnregFrom(p, s, i) == IF i > Len(s) THEN <<>>
 Unreg(p)  == UnregFrom(p, script[p], 1)
 RECURSIVE RepliesFrom(_, _)
 RepliesFrom(s, i) == IF i > Len(s) THEN <<>> ELSE Reply(s[i]) \o RepliesFrom(s, i + 1)
-Replies(p) == RepliesFrom(script[p], 1)
+Replies(p) == Hello \o RepliesFrom(script[p], 1)
 
 RECURSIVE LastVersion(_, _)
 LastVersion(s, i) == IF i = 0 THEN 0 ELSE IF s[i].k = "version" THEN s[i].n ELSE LastVersion(s, i - 1)
